@@ -711,7 +711,7 @@ type cmpSite struct{ op, test, identity string }
 // why a comparison node was classified `other` (diagnostics only)
 var cmpNotes []string
 
-// operand variables of GetValue: `x, _ := b.Left.GetValue(ctx)` / `b.Right.GetValue(ctx)`
+// operand variables of GetValue: `x, _ := b.Left.GetValue(ctx)` / `b.Right.GetValue(ctx)` / `operandValue(ctx, b.Left)`
 func operandVars(fn *ast.FuncDecl) (left, right string) {
 	ast.Inspect(fn.Body, func(n ast.Node) bool {
 		as, ok := n.(*ast.AssignStmt)
@@ -722,11 +722,16 @@ func operandVars(fn *ast.FuncDecl) (left, right string) {
 		if !ok {
 			return true
 		}
-		sel, ok := call.Fun.(*ast.SelectorExpr)
-		if !ok || sel.Sel.Name != "GetValue" {
+		var operand ast.Expr
+		if sel, ok := call.Fun.(*ast.SelectorExpr); ok && sel.Sel.Name == "GetValue" {
+			operand = sel.X
+		} else if fid, ok := call.Fun.(*ast.Ident); ok && fid.Name == "operandValue" && len(call.Args) == 2 {
+			// operandValue(ctx, b.Left): GetValue with 'no value' turned into null (fix: valueless operand)
+			operand = call.Args[1]
+		} else {
 			return true
 		}
-		_, f, ok := fieldOf(sel.X)
+		_, f, ok := fieldOf(operand)
 		id, ok2 := as.Lhs[0].(*ast.Ident)
 		if !ok || !ok2 {
 			return true
